@@ -461,3 +461,143 @@ theorem C18_depth_exact (W : World) (Q : Quirks) (hQ : Q.falsyRoute = false) (hR
       · exact uniform_within d hd E 0 r hu (Or.inr (by omega))
 
 end Utv.C18
+
+namespace Utv.C18
+
+/-! ### cost: the unchanged code is exponential below a union that contains a data class
+
+Full statement (violated by the code, kept visible):
+
+    theorem C18_cost_poly : cost of `parse W Q E fuel c T v` ≤ weight E T * vsize v * (depth v + 1)^2
+
+Known defect `union-retries-exponential`: a data class that is an alternative of a union is parsed with
+its *own* options (cls.py:558-561), so each of the three union stages (rule.py:383-424) re-parses it from
+scratch, and the stages below it start over again: the work triples per nesting level.  Proved at full
+strength by induction on the nesting depth (`C18_cost_exponential`); the polynomial bound is proved under
+the decidable hypothesis that no union contains a data class (`C18_cost_poly_partial`). -/
+
+/-- `class Node: v: Leaf = None; nx: Optional['Node'] = None` -/
+def nodeEnv : Env := [{ fields := [("v", .leaf), ("nx", .union [.data 0, .none])] }]
+
+/-- `k` valid levels above a single invalid leaf (token 1) at the bottom -/
+def badChain : Nat → Val
+  | 0 => .dict [(.str "v", .tok 1)]
+  | k + 1 => .dict [(.str "v", .tok 0), (.str "nx", badChain k)]
+
+def chainCost : Nat → Nat
+  | 0 => 1
+  | k + 1 => 3 * chainCost k + 1
+
+theorem chainCost_closed (k : Nat) : 2 * chainCost k + 1 = 3 ^ (k + 1) := by
+  induction k with
+  | zero => rfl
+  | succ k ih => simp only [chainCost, Nat.pow_succ] at ih ⊢; omega
+
+theorem badChain_dict (k : Nat) : ∃ kvs, badChain k = .dict kvs := by
+  cases k <;> exact ⟨_, rfl⟩
+
+theorem nodeEnv_get : nodeEnv[0]? = some { fields := [("v", .leaf), ("nx", .union [.data 0, .none])] } := rfl
+
+/-- the three stages of `Optional['Node']` each re-parse the nested value from scratch -/
+theorem union_triples (Q : Quirks) (rec : Parser) (c : Ctx) (hc : c.mode = Mode.lenient) (v : Val) (a : Nat)
+    (hv : isNoneVal v = false)
+    (hdata : ∀ c', rec c' (.data 0) v = (.err {}, a)) (hnone : ∀ c', rec c' .none v = (.err {}, 0)) :
+    parseUnion Q rec c [.data 0, .none] v = (.err {}, 3 * a) := by
+  simp [parseUnion, hv, hc, Mode.lenient, unionStage, tryAll, orElse, enter, inCtx, hdata, hnone, Flags.or]
+  omega
+
+theorem badChain_cost (W : World) (hg : ∀ m, W.leafOk m 0 = true) (hb : ∀ m, W.leafOk m 1 = false)
+    (Q : Quirks) (k : Nat) : ∀ (j : Nat) (c : Ctx),
+    parse W Q nodeEnv (2 * k + 2 + j) c (.data 0) (badChain k) = (.err {}, chainCost k) := by
+  induction k with
+  | zero =>
+    intro j c
+    have : 2 * 0 + 2 + j = j + 1 + 1 := by omega
+    rw [this]
+    simp [parse, step, nodeEnv_get, exceeded, badChain, parseFF, seqM, lookupKey, parseField, enter, inCtx,
+      mapOut, hb, chainCost]
+  | succ k ih =>
+    intro j c
+    have : 2 * (k + 1) + 2 + j = (2 * k + 2 + j) + 1 + 1 := by omega
+    rw [this]
+    obtain ⟨kvs, hkvs⟩ := badChain_dict k
+    have hnone : ∀ c', parse W Q nodeEnv (2 * k + 2 + j) c' .none (badChain k) = (.err {}, 0) := by
+      intro c'
+      have : 2 * k + 2 + j = (2 * k + 1 + j) + 1 := by omega
+      rw [this, hkvs]; simp [parse, step]
+    have hu := fun c' hc' => union_triples Q (parse W Q nodeEnv (2 * k + 2 + j)) c' hc' (badChain k) (chainCost k)
+      (by rw [hkvs]; rfl) (fun c'' => ih j c'') hnone
+    simp [parse, step, nodeEnv_get, exceeded, badChain, parseFF, seqM, lookupKey, parseField, enter, inCtx,
+      mapOut, hg, chainCost, hu]
+    omega
+
+/-- **The unchanged code is exponential** (negation of the cost clause, at full strength): an input of
+`k+1` nested `Optional['Node']` levels with one invalid leaf at the bottom costs `(3^(k+1) - 1) / 2`
+leaf conversions — for every `k`, every leaf behaviour that accepts token 0 and rejects token 1, with or
+without the level-accounting fix, in every context. -/
+theorem C18_cost_exponential (W : World) (hg : ∀ m, W.leafOk m 0 = true) (hb : ∀ m, W.leafOk m 1 = false)
+    (Q : Quirks) (k j : Nat) (c : Ctx) :
+    (parse W Q nodeEnv (2 * k + 2 + j) c (.data 0) (badChain k)).1.isOk = false ∧
+    2 * (parse W Q nodeEnv (2 * k + 2 + j) c (.data 0) (badChain k)).2 + 1 = 3 ^ (k + 1) := by
+  rw [badChain_cost W hg hb Q k j c]
+  exact ⟨rfl, chainCost_closed k⟩
+
+end Utv.C18
+
+namespace Utv.C18
+
+/-! ### the unchanged code (before fixes/C18-*.patch): negation witnesses, replayed on the real code by the corpus -/
+
+/-- a concrete leaf behaviour (tokens divisible by 4 are valid) for the closed witnesses -/
+def W0 : World := ⟨fun _ n => n % 4 == 0⟩
+
+def oneClass (t : Ty) (d : Nat) : Env := [{ fields := [("v", .leaf), ("nx", t)], maxDepth := some d }]
+def leafNode : Val := .dict [(.str "v", .tok 0)]
+def twoLevels (wrapped : Val) : Val := .dict [(.str "v", .tok 0), (.str "nx", wrapped)]
+
+/-- `if route:` took list index `0` for "no route": a value of nesting depth 2 under `List['Node']` was rejected with
+`max_depth = 2` (and is accepted after the fix) -/
+theorem C18_legacy_index0_witness :
+    (parseTop W0 Quirks.legacy (oneClass (.list (.data 0)) 2) 10 false 0 (twoLevels (.list [leafNode]))).1.isOk = false ∧
+    (parseTop W0 Quirks.fixed (oneClass (.list (.data 0)) 2) 10 false 0 (twoLevels (.list [leafNode]))).1.isOk = true := by
+  decide
+
+/-- the same for the mapping key `''` … -/
+theorem C18_legacy_empty_key_witness :
+    (parseTop W0 Quirks.legacy (oneClass (.dict .str (.data 0)) 2) 10 false 0
+      (twoLevels (.dict [(.str "", leafNode)]))).1.isOk = false ∧
+    (parseTop W0 Quirks.fixed (oneClass (.dict .str (.data 0)) 2) 10 false 0
+      (twoLevels (.dict [(.str "", leafNode)]))).1.isOk = true := by
+  decide
+
+/-- … and the integer key `0`, while key `1` was counted correctly -/
+theorem C18_legacy_zero_key_witness :
+    (parseTop W0 Quirks.legacy (oneClass (.dict .int (.data 0)) 2) 10 false 0
+      (twoLevels (.dict [(.int 0, leafNode)]))).1.isOk = false ∧
+    (parseTop W0 Quirks.legacy (oneClass (.dict .int (.data 0)) 2) 10 false 0
+      (twoLevels (.dict [(.int 1, leafNode)]))).1.isOk = true := by
+  decide
+
+/-- a class-less root context (`type_transform`) counted as a level: a flat value (nesting depth 1) was rejected
+with `max_depth = 1` -/
+theorem C18_legacy_root_level_witness :
+    (parseTop W0 Quirks.legacy (oneClass .leaf 1) 10 true 0 leafNode).1.isOk = false ∧
+    (parseTop W0 Quirks.fixed (oneClass .leaf 1) 10 true 0 leafNode).1.isOk = true := by
+  decide
+
+/-! ### non-vacuity -/
+
+/-- the headline theorem's accepting side is inhabited: a depth-3 value under `Optional['Node']` is accepted with
+`max_depth = 3` and rejected with `max_depth = 2` -/
+example :
+    let E : Env := [{ fields := [("v", .leaf), ("nx", .union [.data 0, .none])] }]
+    let v := twoLevels (twoLevels leafNode)
+    (parseTop W0 Quirks.fixed (withLimit 3 E) 20 false 0 v).1.isOk = true ∧
+    (parseTop W0 Quirks.fixed (withLimit 2 E) 20 false 0 v).1.isOk = false ∧
+    (parseTop W0 Quirks.fixed (unlimited E) 20 false 0 v).1.isOk = true := by
+  decide
+
+/-- the hypotheses of `C18_cost_exponential` are satisfiable -/
+example : (∀ m, W0.leafOk m 0 = true) ∧ (∀ m, W0.leafOk m 1 = false) := ⟨fun _ => rfl, fun _ => rfl⟩
+
+end Utv.C18
